@@ -17,6 +17,7 @@ _identify_dummy_axes_with_real_axes inlined) with opaque arrays and opaque label
 """
 from __future__ import annotations
 
+from ..core import AnalysisError
 from ..absint import TOP, Evaluator, Obj, Sym, Unmodelled
 from ..harness import apply_attr_models, apply_models, da_method_models, run_apply
 from ..xmodel import COMMON_MODELS, dimsym, make_da, make_grid
@@ -127,7 +128,7 @@ def _r11_1(ctx, P):
                            "an option that is not bound does not act as if it had not been passed")
             else:
                 ctx.ok("R11.1", inst, f"{want!r} in both tables")
-    except Unmodelled as e:
+    except (Unmodelled, AnalysisError) as e:
         ctx.unknown("R11.1", "defaults", str(e))
 
     # -- call: bound options reach apply_as_grid_ufunc; call-time overrides
